@@ -300,6 +300,19 @@ fn c15_completion_session(rep: &mut CaseReport) {
             }
         }
     }
+    // go-to-definition on an upward link names the note by the same URI as every other answer (no ".." left in it)
+    s.did_change("d/n", "# N\n\n[T](../top)\n\n[F](../d)\n");
+    for (line, want) in [(2u64, "top"), (4u64, "d")] {
+        let uri = s.uri("d/n");
+        if let Outcome::Result(v) = s.request("textDocument/definition", json!({"textDocument": {"uri": uri}, "position": {"line": line, "character": 2}})) {
+            rep.count("events", 1);
+            let got = v["uri"].as_str().unwrap_or("").to_string();
+            if got != s.uri(want) {
+                rep.violate("definition-uri-not-canonical", "clean", format!("definition of the link on line {} of d/n answers {}, the note's URI is {}", line, got, s.uri(want)), json!({"library": lib}));
+            }
+        }
+    }
+    s.did_change("d/n", "# N\n\ntext\n");
     if rep.counters.get("completion_links_resolved").copied().unwrap_or(0) == 0 {
         rep.inconclusive.push("completion session: no link item could be matched to its note".into());
     }
